@@ -194,7 +194,8 @@ def propagate_checks(case, v, stats):
         finals = []
         for dt in dts:
             n = int(round(tau / dt))
-            t = np.arange(n + 1) * dt
+            # non-uniform stamps: intervals alternate 0.5 dt / 1.5 dt (halving dt halves every interval)
+            t = np.concatenate([[0.0], np.cumsum(np.tile([0.5 * dt, 1.5 * dt], n // 2))])
             lla = m.lla(t)
             traj = pd.DataFrame(np.column_stack([lla[:, 0] * geo.R2D, lla[:, 1] * geo.R2D, lla[:, 2], m.vel(t),
                                                  m.rph(t) * geo.R2D]), index=pd.Index(t, name='time'),
